@@ -6,6 +6,7 @@ import (
 	"bytes"
 	"encoding/json"
 	"fmt"
+	"io"
 	"math/rand"
 	"reflect"
 	"runtime"
@@ -351,7 +352,47 @@ func Run(c *core.Ctx) {
 				return
 			}
 			fail(fmt.Sprintf("DecodePacket fields differ: got %+v", got))
+			return
 		}
+		// 3. the same bytes arriving in pieces (a TCP stream is not packet-aligned): cut after every byte for short
+		// packets, at a few offsets for long ones, and trickled 1..3 bytes at a time; followed by a PINGREQ that must
+		// still decode (framing kept)
+		cuts := []int{}
+		if len(want) <= 48 {
+			for i := 1; i < len(want); i++ {
+				cuts = append(cuts, i)
+			}
+		} else {
+			cuts = []int{1, 2, 3, 4, 5, len(want) / 2, len(want) - 2, len(want) - 1}
+		}
+		cuts = append(cuts, -1, -2, -3) // trickle
+		for _, cut := range cuts {
+			src := &pieces{data: append(append([]byte{}, want...), 0xC0, 0x00), cut: cut}
+			rd := bufio.NewReaderSize(src, 16)
+			var g2, g3 mqtt.Message
+			var e2, e3 error
+			if pn := safe(func() {
+				g2, e2 = mqtt.DecodePacket(rd, 65536)
+				if e2 == nil {
+					g3, e3 = mqtt.DecodePacket(rd, 65536)
+				}
+			}); pn != nil {
+				fail(fmt.Sprintf("DecodePacket panicked (%v) on well-formed bytes arriving in pieces (cut %d)", pn, cut))
+				return
+			}
+			if e2 != nil || !reflect.DeepEqual(norm(g2), norm(m)) {
+				if tag := classify(&p, g2); tag != "" && c.Known(tag) {
+					continue
+				}
+				fail(fmt.Sprintf("DecodePacket of the same bytes arriving in pieces (cut after byte %d; negative = trickled) differs: got %+v err %v", cut, g2, e2))
+				return
+			}
+			if e3 != nil || g3 == nil || g3.Type() != mqtt.TypeOfPingreq {
+				fail(fmt.Sprintf("after a packet that arrived in pieces (cut %d) the next packet (PINGREQ) decodes as %+v err %v: framing lost", cut, g3, e3))
+				return
+			}
+		}
+		c.Add("segmented_decodes", int64(len(cuts)))
 	}
 	r, err := tlc.Run(tlc.Opts{SpecDir: core.SpecDir(), Module: "MC_Mqtt", Cfg: fmt.Sprintf("CONSTANT Tier = %q\nINIT Init\nNEXT Next\n", c.Tier), Workers: 1,
 		OnTag: func(tag, js string) {
@@ -461,4 +502,33 @@ func concurrentEncode(c *core.Ctx) {
 		wg.Wait()
 	}
 	c.Add("concurrent_encodings", int64(4*16*rounds))
+}
+
+// pieces hands out data in two pieces (cut > 0: the first `cut` bytes, then the rest) or trickles it (-k: k bytes per Read).
+type pieces struct {
+	data []byte
+	cut  int
+	off  int
+}
+
+func (p *pieces) Read(b []byte) (int, error) {
+	if p.off >= len(p.data) {
+		return 0, io.EOF
+	}
+	n := len(p.data) - p.off
+	switch {
+	case p.cut > 0 && p.off < p.cut:
+		n = p.cut - p.off
+	case p.cut < 0:
+		n = -p.cut
+	}
+	if n > len(b) {
+		n = len(b)
+	}
+	if n > len(p.data)-p.off {
+		n = len(p.data) - p.off
+	}
+	copy(b, p.data[p.off:p.off+n])
+	p.off += n
+	return n, nil
 }
